@@ -62,14 +62,22 @@ def pidx(x, nm):
     return "(IExp %s)" % pe(x, nm)
 
 
+_FORMS = {}
+
+
 def pa(e, nm, arrays):
     k = e[0]
     if k == "lit":
         return "(ALit (%d))" % e[1]
     if k == "var":
-        if e[1] in arrays:      # Reference2ArrayRangeTrans on an array with declared bounds
-            return "(ASec %d%%nat [%s])" % (nm.get(e[1]), "; ".join(
-                "(IRange (ELit (%d)) (ELit (%d)) (ELit 1))" % b for b in arrays[e[1]]))
+        if e[1] in arrays:      # Reference2ArrayRangeTrans: declared bounds, or LBOUND/UBOUND for assumed shape
+            if _FORMS.get(e[1], ("explicit",))[0] == "explicit":
+                return "(ASec %d%%nat [%s])" % (nm.get(e[1]), "; ".join(
+                    "(IRange (ELit (%d)) (ELit (%d)) (ELit 1))" % b for b in arrays[e[1]]))
+            a = nm.get(e[1])
+            return "(ASec %d%%nat [%s])" % (a, "; ".join(
+                "(IRange (EIntr ILbound [EVar %d%%nat; ELit %d]) (EIntr IUbound [EVar %d%%nat; ELit %d]) (ELit 1))"
+                % (a, k + 1, a, k + 1) for k in range(len(arrays[e[1]]))))
         return "(AVar %d%%nat)" % nm.get(e[1])
     if k == "idx":
         return "(ASec %d%%nat [%s])" % (nm.get(e[1]), "; ".join(pidx(x, nm) for x in e[2]))
@@ -192,8 +200,16 @@ def encode(case, res, vals, with_store=True):
     if T[0] != "assign":
         raise Skip("target is not an assignment")
     forms = case.get("forms", {})
-    if any(forms.get(a, ("explicit",))[0] != "explicit" for a in names_of_stmt(T) if a in arrays):
-        raise Skip("assumed-shape / allocatable declaration")
+    _FORMS.clear()
+    _FORMS.update(forms)
+    used_forms = {forms.get(a, ("explicit",))[0] for a in names_of_stmt(T) if a in arrays}
+    # same_range over EFFECTIVE bounds is faithful for assumed-shape dummies (ATTRIBUTE extent: start 1 or the
+    # declared lower bound) but not for allocatables (DEFERRED: never "same"); DOT_PRODUCT's model emits literal
+    # declared bounds; MATMUL goes through the form-aware models (encode2)
+    if "alloc" in used_forms or (kind == "dot" and used_forms - {"explicit"}):
+        raise Skip("allocatable (or non-explicit DOT_PRODUCT operand) declaration")
+    if kind == "matmul":
+        raise Skip("matmul is encoded by encode2")
     nm = mf.Names()
     for v, _, _ in case["decls"]:
         nm.get(v)
@@ -282,6 +298,70 @@ def encode(case, res, vals, with_store=True):
     raise Skip("kind " + kind)
 
 
+def pforms(case, names, nm):
+    out = []
+    for a in names:
+        f = case.get("forms", {}).get(a, ("explicit",))
+        bs = case["arrays"][a]
+        if f[0] == "explicit":
+            dims = ["(DExplicit (%d) (%d))" % b for b in bs]
+        elif f[0] == "assumed":
+            dims = ["DAssumed" if lb is None else "(DAssumedLb (%d))" % lb for lb in f[1]]
+        else:
+            dims = ["DDeferred" for _ in bs]
+        out.append("(%d%%nat, [%s])" % (nm.get(a), "; ".join(dims)))
+    return "[" + "; ".join(out) + "]"
+
+
+def encode2(case, res, vals, with_store=True):
+    """MATMUL (matrix*vector and matrix*matrix) with any declaration form -> Corr2.ccase2"""
+    arrays = case["arrays"]
+    seg = diff_segment(res["orig"], res["out"])
+    if not seg:
+        raise Skip("cannot locate the rewritten statement")
+    T, R = seg
+    if T[0] != "assign" or T[3][0] != "intr" or T[3][1] != "IMatmul":
+        raise Skip("not a MATMUL assignment")
+
+    def whole(a):
+        if a[0] == "var":
+            return a[1]
+        if a[0] == "idx" and len(a[2]) == len(arrays[a[1]]) and all(x[0] == "rng" for x in a[2]):
+            return a[1]
+        raise Skip("operand is not a whole array")
+    m1, m2 = whole(T[3][2][0]), whole(T[3][2][1])
+    r = T[1]
+    if T[2] and not all(x[0] == "rng" for x in T[2]):
+        raise Skip("result is not a whole array")
+    if len(arrays[m1]) != 2:
+        raise Skip("first operand rank")
+    nm = mf.Names()
+    for v, _, _ in case["decls"]:
+        nm.get(v)
+    new = res["new_names"]
+    for n in new:
+        nm.get(n)
+    r0 = ext.interp([T], vals, arrays, strict=True) if with_store else ("skipped",)
+    st = "None"
+    if r0[0] == "ok":
+        st = pstore_expect(vals, arrays, nm, [((r, l), r0[1].get((r, l), 0)) for l in all_locs(arrays[r])], T)
+    fm = pforms(case, [r, m1, m2], nm)
+    d = pdecls({a: arrays[a] for a in (r, m1, m2)}, nm)
+    if len(arrays[m2]) == 2 and len(arrays[r]) == 2:
+        return "(CMatmatF %s %s %d%%nat %d%%nat %d%%nat %d%%nat %d%%nat %d%%nat %s %s)" % (
+            fm, d, nm.get(pick_name(new, "i")), nm.get(pick_name(new, "j")), nm.get(pick_name(new, "ii")),
+            nm.get(r), nm.get(m1), nm.get(m2), ps(R, nm), st)
+    if len(arrays[m2]) == 1 and len(arrays[r]) == 1:
+        return "(CMatvecF %s %s %d%%nat %d%%nat %d%%nat %d%%nat %d%%nat %s %s)" % (
+            fm, d, nm.get(pick_name(new, "i")), nm.get(pick_name(new, "j")), nm.get(r), nm.get(m1), nm.get(m2),
+            ps(R, nm), st)
+    raise Skip("ranks")
+
+
+HEADER2 = """From Coq Require Import ZArith. From PV Require Import Fort.Syntax Fort.Sem C06.Syntax C06.Model C06.Corr C06.Bounds C06.Corr2.
+Open Scope Z_scope."""
+
+
 def all_locs(bs):
     out = [()]
     for lb, ub in bs:
@@ -296,6 +376,7 @@ Open Scope Z_scope."""
 def correspondence(ctx, cases, FX):
     """cases: list of (case, res).  -> (number of cases in the model subset, [(case, res, why)] that disagree)"""
     terms, kept = [], []
+    terms2, kept2 = [], []
     rng = ctx.rng("corr-store")
     cap = ctx.pick(300, 10 ** 9)        # quick tier: bounded number of coqc-evaluated cases, spread over all kinds
     if len(cases) > cap * 1.4:
@@ -304,6 +385,15 @@ def correspondence(ctx, cases, FX):
     for case, res in cases:
         if len(terms) >= cap:
             break
+        if case["kind"] == "matmul":
+            try:
+                vals = case["_gen"].store(rng)
+                terms2.append(encode2(case, res, vals, with_store=(ctx.thorough or len(terms2) % 2 == 0)))
+                kept2.append((case, res))
+                ctx.hist("model_cases", "matmul(form-aware)")
+            except Skip as e:
+                ctx.hist("outside_model", "matmul: %s" % str(e)[:40])
+            continue
         try:
             vals = case["_gen"].store(rng)
             # prefer a store on which the original program is valid
@@ -318,9 +408,13 @@ def correspondence(ctx, cases, FX):
         ctx.hist("model_cases", case["kind"])
         terms.append(t)
         kept.append((case, res))
+    bad2 = []
+    if terms2:
+        b2 = ctx.coq_eval_failing(HEADER2, "ccase2", "check2", terms2, shard=200)
+        bad2 = [(kept2[i][0], kept2[i][1], terms2[i][:3000]) for i in b2]
     if not terms:
-        return 0, []
+        return len(terms2), bad2
     b = lambda v: "true" if v else "false"
     fx = "(mkFixes %s %s %s)" % (b(FX["shortcut"]), b(FX["stride"]), b(FX["redstore"]))
     bad = ctx.coq_eval_failing(HEADER, "ccase", "check " + fx, terms, shard=ctx.pick(50, 200))
-    return len(terms), [(kept[i][0], kept[i][1], terms[i][:3000]) for i in bad]
+    return len(terms) + len(terms2), bad2 + [(kept[i][0], kept[i][1], terms[i][:3000]) for i in bad]
